@@ -132,7 +132,21 @@ Explains(r) ==
 \* apply/undo(ProjData&) with the default symmetries argument - raises an error.
 \* C13-compsetup: BinNormalisationPETFromComponents::set_up reports success for a geometry other than the one the
 \* factors were allocated for (its comparison is made after the stored geometry has been overwritten).
+\* C13-narrowtang: FromProjData and PETFromComponents combine the caller's viewgrams with stored viewgrams of the
+\* set-up geometry; data with a NARROWER tangential range pass BinNormalisation::check (operator>=), and then
+\* the rows come back grown to the stored tangential range (operator*= / operator/= of the rows grow; apply(ProjData&)
+\* then writes beyond the data's buffer) or, for PETFromComponents::apply (element-by-element division over
+\* begin_all()), divided by the factors of other bins.
+RECURSIVE UsesStoredViewgrams(_)
+UsesStoredViewgrams(o) == CASE o.cls \in {"PD", "Comp"} -> TRUE
+                            [] o.cls = "Chain" -> UsesStoredViewgrams(o.first) \/ UsesStoredViewgrams(o.second)
+                            [] OTHER -> FALSE
+NarrowTang(r) ==
+  /\ r.e = "RV" /\ ~r.err /\ Target(r).cls # "Unknown" /\ UsesStoredViewgrams(Target(r))
+  /\ su.st = "ok" /\ GeomOk(r.G) /\ Geq(su.g, r.G)
+  /\ (r.G.minTang > su.g.minTang \/ r.G.maxTang < su.g.maxTang)
 Classify(r) ==
+  IF NarrowTang(r) THEN "C13-narrowtang" ELSE
   IF /\ r.e \in {"RVF", "WholeF"} /\ HasAtt(obj) /\ r.err /\ r.sym # "proj"
      /\ su.st = "ok" /\ GeomEq(su.g, r.G)
   THEN "C13-attsymm"
